@@ -82,6 +82,11 @@ func genScalarsCase(t *rapid.T) ScalarsCase {
 		return genSingleLine(t, label, false)
 	}
 	c.Str, c.Renamed, c.Skipped = opt("str"), opt("ren"), opt("skip")
+	if rapid.IntRange(0, 29).Draw(t, "long") == 0 {
+		// a value longer than the reader's 4096-byte buffer, with lengths around the buffer marks
+		n := rapid.SampledFrom([]int{4070, 4080, 4085, 4090, 4096, 4100, 5000, 8180, 8192, 8200, 20000}).Draw(t, "longn") + rapid.IntRange(-3, 3).Draw(t, "longd")
+		c.Str = strings.Repeat("abcdefghij", n/10+1)[:n]
+	}
 	c.Req = opt("req")
 	switch rapid.IntRange(0, 4).Draw(t, "numk") {
 	case 0:
